@@ -19,7 +19,10 @@ MANIFEST_ENTRY = {
             "intervals, CustomNormalization and the preset table: the interval map is monotone into [0,1] and sends vmin/vmax to 0/1; every "
             "stretch with admissible parameters maps [0,1] into [0,1], fixes 0 and 1, is monotone, and S(S.inverse y)=y on [0,1] with the "
             "inverse the class declares; each generated body equals its closed form (generated_eq_spec); the composition is monotone into "
-            "[0,1], NaN is masked, for every stretch CustomNormalization can select and for all ten presets. The generated text and the hand "
+            "[0,1], NaN is masked, for every stretch CustomNormalization can select and for all ten presets, with limits frozen by _set_limits or "
+            "recomputed from the argument; manual/centered/quantile limits are ordered (the modelled NumPy linear quantile is monotone in q and "
+            "lies between min and max); the declared inverse is two-sided and CustomNormalization.inverse round-trips with the forward map on "
+            "[vmin,vmax] / [0,1]. The generated text and the hand "
             "model are run at Float against the real classes (exact equality on the float64 linear path, 1e-9 / 5e-4 otherwise) and the "
             "property clauses are evaluated on the real outputs as the failing-input search.",
     "note": "Trusted: Lean kernel + propext/Classical.choice/Quot.sound, the translator (≈300 lines, cross-checked by the Float "
@@ -40,7 +43,7 @@ ASSUMPTIONS = [
     "limits clause is required only when the interval's limits satisfy vmin < vmax (for vmin = vmax one point cannot go to both 0 and 1; the model theorem is stated under vmin < vmax, the degenerate point is still run for range/monotone/NaN)",
     "configurations with inverted limits (explicit vmin > vmax, negative half_range, lower_quantile > upper_quantile) are outside 'lower and upper limits'; they are run for correspondence only",
     "LinearStretch is in the quantifier only with its default slope/intercept (CustomNormalization cannot set them); other values: correspondence only",
-    "in lazy mode (no data= at construction) the limits are recomputed from the argument; the limits clause is then evaluated only where a probe leaves them exactly unchanged (manual limits, centered with half_range); automatic centered/quantile limits are covered by the frozen mode",
+    "limits clause: (a) on the limits the configuration DECLARES (explicit manual vmin/vmax incl. half-specified ones, a missing side being the data min/max; centered with half_range), (b) on the limits the object reports. In lazy mode (no data= at construction) the limits are recomputed from the argument: manual limits are probed with data ∪ {limits} (min/max unchanged), automatic centered limits likewise with a conditioning-aware slack at 0 (eps**power), quantile limits through their consequence that pixels at/beyond the reported limits sit at 0/1",
     "floating point: range/monotone/limits/inverse clauses are evaluated with slack 0 on the linear float64/int path, 1e-12 (float64) or 1e-4 (float32) after a transcendental stretch, 1e-9 (float64) / 5e-4 (float32) for S∘S.inverse",
     "0-d and empty arrays, bool/complex dtypes and float16 are outside the quantifier (bool: correspondence only)",
 ]
@@ -161,16 +164,21 @@ def gen_data(rng, big=False):
         elif style == "around":
             w = min(100, (hi - lo) // 4)
             c = rng.randint(max(lo, -cap) + w, min(hi, cap) - w)
+            if lo < 0 and rng.chance(0.35):
+                c = 0                                   # data on both sides of zero (a limit of exactly 0 then lies inside)
             vals = [c + rng.randint(-w, w) for _ in range(n)]
         else:
             a, b = (-(2 ** 62), 2 ** 62) if dt == "int64" else (0, 2 ** 63)
             vals = [rng.choice([a, b, 0, a // 2, b // 2, b // 3]) for _ in range(n)]
         arr = np.array(vals, dtype=dt)
     else:
-        style = rng.weighted([("dyadic", 3), ("uniform", 5), ("wide", 2)])
+        style = rng.weighted([("dyadic", 3), ("uniform", 4), ("zero", 2), ("wide", 2)])
         if style == "dyadic":
             c = rng.randint(-40, 40)
             vals = [c + rng.randint(-64, 64) / 8.0 for _ in range(n)]
+        elif style == "zero":
+            s = loguniform(rng, 1e-2, 1e3)
+            vals = [s * rng.uniform(-1, 1) for _ in range(n)]       # both sides of zero
         elif style == "uniform":
             s = loguniform(rng, 1e-3, 1e4)
             c = s * rng.uniform(-8, 8)
@@ -225,7 +233,7 @@ def gen_cfg(rng, arr):
         return nice(rng, x)
 
     if cfg["interval_type"] == "manual":
-        kind = rng.weighted([("auto", 3), ("both", 4), ("vmin", 1.5), ("vmax", 1.5)])
+        kind = rng.weighted([("auto", 3), ("both", 4), ("vmin", 2.5), ("vmax", 2.5)])
         lo = fmin + span * rng.uniform(-0.3, 0.6)
         hi = lo + span * rng.uniform(0.05, 1.2)
         lo, hi = maybe_int(lo), maybe_int(hi)
@@ -235,8 +243,24 @@ def gen_cfg(rng, arr):
                 hi = lo                      # degenerate
             elif r < 0.10:
                 lo, hi = max(lo, hi) + 1, min(lo, hi)  # inverted (outside the quantifier)
+            elif r < 0.2:
+                z = rng.choice([0, 0.0, -0.0])        # one limit exactly zero
+                lo, hi = (z, abs(hi) + 1) if rng.chance(0.5) else (-abs(lo) - 1, z)
             elif hi <= lo:
                 hi = lo + 1
+        elif kind in ("vmin", "vmax"):
+            # half-specified: the given limit exactly zero (0, 0.0, -0.0 are falsy in Python), strictly inside the data
+            # range, or outside it on either side
+            r = rng.random()
+            if r < 0.3:
+                v = rng.choice([0, 0.0, -0.0])
+            elif r < 0.65:
+                v = maybe_int(fmin + span * rng.uniform(0.05, 0.95))
+            elif r < 0.85:
+                v = maybe_int(fmin - span * rng.uniform(0.05, 0.6)) if kind == "vmin" else maybe_int(fmax + span * rng.uniform(0.05, 0.6))
+            else:
+                v = maybe_int(fmax + span * rng.uniform(0.0, 0.3)) if kind == "vmin" else maybe_int(fmin - span * rng.uniform(0.0, 0.3))
+            lo = hi = v
         if kind in ("both", "vmin"):
             cfg["vmin"] = lo
         if kind in ("both", "vmax"):
@@ -567,43 +591,96 @@ def predicate_norm(ctx, case, impl):
     if not clauses_range_mono_nan(ctx, case, sig, flat.tolist(), impl["out"], t):
         return
     # (3) the interval's limits go to 0 and 1
+    norm = impl["_norm"]
+    it = cfg["interval_type"]
+    frozen = case["mode"] == "frozen"
+    fin = flat[np.isfinite(flat)] if flat.dtype.kind == "f" else flat.astype(np.float64)
+    f32 = arr.dtype == np.float32
+    # slack at the lower limit: x**p (p < 1) is infinitely steep at 0, so a probe that is only equal to the limit up to
+    # round-off (automatic centered limits recomputed from the probe) may sit at eps**p
+    sel_name, sel_par = sel
+    tiny = 1e-6 if f32 else 1e-13
+    t0_inexact = max(t, 1e-9, tiny ** float(sel_par) if sel_name == "PowerLawStretch" else 0.0)
+    t1_inexact = max(t, 1e-9)
+
+    def run_probe(values, what):
+        try:
+            p = norm(values)
+        except Exception as e:  # noqa
+            ctx.pred_fail("limits-raises:" + sig, f"normalising {what} raised {err_name(e)}", case, observed=str(e)[:200], required="[0, 1]")
+            return None
+        pm = np.ma.getmaskarray(p).ravel().tolist()
+        pv = np.ma.getdata(p).ravel().tolist()
+        return [None if pm[-2] else float(pv[-2]), None if pm[-1] else float(pv[-1])]
+
+    def judge(key, what, lims, probe, t_lo, t_hi):
+        ctx.dist["norm:" + key + "-checked"] += 1
+        if probe is None or probe[0] is None or probe[1] is None or abs(probe[0]) > t_lo or abs(probe[1] - 1.0) > t_hi:
+            ctx.pred_fail(key + ":" + sig, what, case, observed={"vmin": lims[0], "vmax": lims[1], "norm([vmin, vmax])": probe}, required=[0.0, 1.0])
+            return False
+        return True
+
+    # (3a) the limits the CONFIGURATION declares (independent of what the object reports): explicit manual limits (a missing
+    # side is the min/max of the finite data), centered with an explicit half range
+    declared = None
+    if it == "manual" and (cfg["vmin"] is not None or cfg["vmax"] is not None):
+        declared = (cfg["vmin"] if cfg["vmin"] is not None else float(fin.min()), cfg["vmax"] if cfg["vmax"] is not None else float(fin.max()))
+    elif it == "centered" and cfg["half_range"] is not None:
+        declared = (cfg["vcenter"] - cfg["half_range"], cfg["vcenter"] + cfg["half_range"])
+    if declared is not None and declared[0] < declared[1]:
+        if frozen or it == "centered":
+            # frozen limits (or limits fixed by the configuration) do not depend on the argument
+            probe = run_probe(np.array([declared[0], declared[1]], dtype=np.float64), "the declared limits")
+            tl = t
+        else:
+            # lazy manual: explicit limits stay what they are; a missing one is min/max of the argument, and adding the
+            # limits themselves (lo <= hi) to the data does not move min/max
+            probe = run_probe(np.concatenate([fin, np.array([declared[0], declared[1]], dtype=fin.dtype)]), "the data plus the declared limits")
+            # a float32 probe is normalised in float32: (hi32 - lo32) / (hi - lo) is 1 only up to float32 rounding
+            tl = max(t, 1e-4) if f32 else t
+        if probe is None or not judge("limits-declared", "the declared lower/upper limits of the configuration are not sent to 0 and 1",
+                                      declared, probe, tl, tl):
+            return
+    elif declared is not None:
+        ctx.dist["norm:limits-declared-skipped(lo>=hi)"] += 1
+    # (3b) the limits the interval itself reports
     lo, hi = impl.get("vmin"), impl.get("vmax")
     if lo is None or hi is None or not (lo < hi):
         ctx.dist["norm:limits-clause-skipped(vmin>=vmax)"] += 1
         return
-    probe = None
-    if case["mode"] == "frozen":
-        probe = impl.get("probe_out")          # norm(np.array([norm.vmin, norm.vmax]))
-    else:
-        # lazy: the limits are recomputed from the argument, so the probe must leave them unchanged *exactly*
-        norm = impl["_norm"]
-        it = cfg["interval_type"]
-        try:
-            if it == "centered" and cfg["half_range"] is not None:
-                p = norm(np.array([lo, hi], dtype=np.float64))
-            elif it == "manual":
-                # explicit limits stay what they are; automatic ones are min/max of the data, and adding
-                # the limits themselves (lo <= hi) to the data does not move min/max
-                fin = flat[np.isfinite(flat)] if flat.dtype.kind == "f" else flat.astype(np.float64)
-                elo = cfg["vmin"] if cfg["vmin"] is not None else fin.min()
-                ehi = cfg["vmax"] if cfg["vmax"] is not None else fin.max()
-                p = norm(np.concatenate([fin, np.array([elo, ehi], dtype=fin.dtype)]))
-            else:
-                ctx.dist["norm:limits-clause-skipped(lazy-" + it + "-auto)"] += 1
+    if frozen:
+        judge("limits", "the interval's lower/upper limits are not sent to 0 and 1", (lo, hi), impl.get("probe_out"), t, t)
+        return
+    if it == "manual" and declared is None:
+        # automatic min/max: the limits are data elements
+        probe = run_probe(np.concatenate([fin, np.array([fin.min(), fin.max()], dtype=fin.dtype)]), "the data plus its min/max")
+        if probe is not None:
+            judge("limits", "the interval's lower/upper limits (data min/max) are not sent to 0 and 1", (float(fin.min()), float(fin.max())), probe,
+                  max(t, 1e-4) if f32 else t, max(t, 1e-4) if f32 else t)
+    elif it == "centered" and cfg["half_range"] is None:
+        # automatic centered limits vcenter -/+ max|x - vcenter| (oracle, float64): adding them to the data leaves the half range
+        # unchanged up to round-off, hence the conditioning-aware slack at the lower end
+        f64 = fin.astype(np.float64)
+        h = float(np.max(np.abs(f64 - float(cfg["vcenter"]))))
+        olo, ohi = float(cfg["vcenter"]) - h, float(cfg["vcenter"]) + h
+        if olo < ohi:
+            probe = run_probe(np.concatenate([fin, np.array([olo, ohi]).astype(fin.dtype)]), "the data plus the centered limits")
+            if probe is not None:
+                judge("limits-centered-auto", "vcenter -/+ max|x - vcenter| are not sent to 0 and 1", (olo, ohi), probe,
+                      max(t0_inexact, 1e-4 if f32 else 0.0), max(t1_inexact, 1e-4 if f32 else 0.0))
+    elif it == "quantile":
+        # the limits depend on the argument; consequence of (monotone ∧ limits -> 0/1 ∧ range): pixels at or beyond the reported
+        # limits sit at 0 / 1
+        ctx.dist["norm:limits-beyond-checked"] += 1
+        xs = flat.tolist()
+        for i, (x, y) in enumerate(zip(xs, impl["out"])):
+            if isinstance(x, float) and (x != x):
+                continue
+            want = 0.0 if x <= lo else (1.0 if x >= hi else None)
+            if want is not None and (y is None or abs(y - want) > max(t, 1e-4 if f32 else 0.0)):
+                ctx.pred_fail("limits-beyond:" + sig, "a pixel at/beyond the interval's limit is not at 0 / 1", case,
+                              observed={"vmin": lo, "vmax": hi, "x": x, "out": y}, required=want)
                 return
-            pm = np.ma.getmaskarray(p).ravel().tolist()
-            pv = np.ma.getdata(p).ravel().tolist()
-            probe = [None if pm[-2] else float(pv[-2]), None if pm[-1] else float(pv[-1])]
-        except Exception as e:  # noqa
-            ctx.pred_fail("limits-raises:" + sig, f"normalising the interval's own limits raised {err_name(e)}", case,
-                          observed=str(e)[:200], required="[0, 1]")
-            return
-    ctx.dist["norm:limits-clause-checked"] += 1
-    # a float32 probe is normalised in float32: (hi32 - lo32) / (hi - lo) is 1 only up to float32 rounding
-    tl = max(t, 1e-4) if (arr.dtype == np.float32 and case["mode"] != "frozen") else t
-    if probe is None or probe[0] is None or probe[1] is None or abs(probe[0]) > tl or abs(probe[1] - 1.0) > tl:
-        ctx.pred_fail("limits:" + sig, "the interval's lower/upper limits are not sent to 0 and 1", case,
-                      observed={"vmin": lo, "vmax": hi, "norm([vmin, vmax])": probe}, required=[0.0, 1.0])
 
 
 def one_norm(ctx, drv, case):
@@ -997,9 +1074,9 @@ def gen_show_case(rng, i):
         if r_ < 0.6:
             case["kwargs"] = [["vmin", lo], ["vmax", hi]]
         elif r_ < 0.8:
-            case["kwargs"] = [["vmin", lo]]
+            case["kwargs"] = [["vmin", rng.choice([0, 0.0, -0.0]) if rng.chance(0.35) else lo]]
         else:
-            case["kwargs"] = [["vmax", hi]]
+            case["kwargs"] = [["vmax", rng.choice([0, 0.0, -0.0]) if rng.chance(0.35) else hi]]
         if rng.chance(0.4):
             case["kwargs"].append(["stretch_type", rng.choice(["logarithmic", "asinh", "linear"])])
     elif kind == "kw-quantile":
@@ -1135,15 +1212,22 @@ def one_show(ctx, drv, case):
         t = slack(cfg, arr.dtype)
         if not clauses_range_mono_nan(ctx, case, sig, arr.ravel().tolist(), impl["outs"][j], t):
             return
-        # the configuration's explicit limits go to 0 and 1
-        if cfg["interval_type"] == "manual" and cfg["vmin"] is not None and cfg["vmax"] is not None and cfg["vmin"] < cfg["vmax"]:
+        # the configuration's declared limits go to 0 and 1 (a missing side is the min/max of the displayed array; with the
+        # frozen limits of _show_2d_array the probe does not move them, _show_2d_combined recomputes them per array and is
+        # probed only with both limits given)
+        flat_ = arr.ravel()
+        fin_ = flat_[np.isfinite(flat_)] if flat_.dtype.kind == "f" else flat_.astype(np.float64)
+        dlo = cfg["vmin"] if cfg["vmin"] is not None else float(fin_.min())
+        dhi = cfg["vmax"] if cfg["vmax"] is not None else float(fin_.max())
+        given = (cfg["vmin"] is not None) + (cfg["vmax"] is not None)
+        if cfg["interval_type"] == "manual" and dlo < dhi and (given == 2 or (given == 1 and case["which"] == "array")):
             ctx.dist["show:limits-clause-checked"] += 1
-            p = rec["norm"](np.array([cfg["vmin"], cfg["vmax"]], dtype=np.float64))
+            p = rec["norm"](np.array([dlo, dhi], dtype=np.float64))
             pm = np.ma.getmaskarray(p).ravel().tolist()
             pv = [None if mm else float(vv) for vv, mm in zip(np.ma.getdata(p).ravel().tolist(), pm)]
             if pv[0] is None or pv[1] is None or abs(pv[0]) > t or abs(pv[1] - 1.0) > t:
                 ctx.pred_fail("limits:" + sig, "the configured lower/upper limits are not sent to 0 and 1 by the normalisation the caller builds",
-                              case, observed={"vmin": cfg["vmin"], "vmax": cfg["vmax"], "norm([vmin, vmax])": pv}, required=[0.0, 1.0])
+                              case, observed={"vmin": dlo, "vmax": dhi, "norm([vmin, vmax])": pv}, required=[0.0, 1.0])
                 return
     ctx.sample({"stream": "show", "which": case["which"], "norm": case["norm"], "kwargs": case["kwargs"], "dtype": dt,
                 "shape": case["arrays"][0]["shape"], "built": {k: impl.get(k) for k in ("stretch", "interval")}}, limit=6)
